@@ -7,7 +7,7 @@ DESCRIPTION = {
              "Twisted Deferreds and asyncio Futures.  Rules: call / publish (acknowledged or not) / subscribe / unsubscribe / register / unregister with generated URI, args, "
              "kwargs and options; router replies drawn from the model's pending set in any order with kind in {success, error, progressive, duplicate of an answered id, unknown "
              "id, wrong reply type for that id}; unrelated EVENTs and INVOCATIONs interleaved.  Oracle after every step: the transport log grew by exactly the expected "
-             "message; request ids are 1,2,3.. in issue order; the message carries the given URI/args/kwargs and the option attributes computed by an independent option->wire "
+             "message; request ids are 1,2,3.. in issue order; the message carries the given URI/args/kwargs and the option attributes computed by an independent option->wire (an explicitly empty black-/whitelist is kept: it is not the same as an absent option) "
              "table; each returned Deferred/Future completes at most once, exactly once after its matching reply, with the reply's content (result shape rules) or an "
              "ApplicationError with the reply's URI/args/kwargs; no other pending result changes state; progressive results reach only that call's on_progress; duplicate / "
              "unknown / wrong-type replies raise ProtocolError and complete nothing.  Exhaustive cross-type job: each of the 6 request kinds pending alone x each of the 5 other reply types x {success form, ERROR form} x 3 "
@@ -161,7 +161,11 @@ class Interp:
                 if k.startswith(("exclude", "eligible")) and k != "exclude_me" and v is not None and not isinstance(v, list):
                     want = [v]
                 got = getattr(m, k)
-                if (got or None) != (want or None) and not (got is False and want is None) and got != want:
+                if k.startswith(("exclude", "eligible")) and k != "exclude_me":
+                    # black-/whitelists: an explicitly empty list ("nobody") is not the same as an absent option
+                    if got != want:
+                        self.fail("option-not-faithful|publish." + k, "wire %r for option %r" % (got, v))
+                elif (got or None) != (want or None) and not (got is False and want is None) and got != want:
                     self.fail("option-not-faithful|publish." + k, "wire %r for option %r" % (got, v))
         if opts.get("acknowledge"):
             if fut is None:
@@ -500,8 +504,10 @@ def make_machine_factory(col):
                 self.ap("call", proc, args, kwargs, opts)
 
             @rule(topic=uris, args=vals, kwargs=kws, opts=st.fixed_dictionaries({
-                "acknowledge": st.sampled_from([None, True, True, False]), "exclude_me": st.sampled_from([None, True, False]), "exclude": st.sampled_from([None, 7, [1, 2]]),
-                "eligible_authid": st.sampled_from([None, "joe", ["a", "b"]]), "exclude_authrole": st.sampled_from([None, "admin"]), "retain": st.sampled_from([None, True])}))
+                "acknowledge": st.sampled_from([None, True, True, False]), "exclude_me": st.sampled_from([None, True, False]), "exclude": st.sampled_from([None, None, 7, [1, 2], []]),
+                "eligible": st.sampled_from([None, None, None, 9, [3, 4], []]), "exclude_authid": st.sampled_from([None, None, None, "eve", ["x"], []]),
+                "eligible_authid": st.sampled_from([None, None, "joe", ["a", "b"], []]), "exclude_authrole": st.sampled_from([None, None, "admin", []]),
+                "eligible_authrole": st.sampled_from([None, None, None, "user", ["u", "v"], []]), "retain": st.sampled_from([None, True])}))
             def publish(self, topic, args, kwargs, opts):
                 self.ap("publish", topic, args, kwargs, opts)
 
@@ -553,7 +559,8 @@ def crosstype(col):
     the wrong-type reply bearing the pending id must be a protocol violation, and the genuine reply must still complete the request"""
     U = "com.example.a"
     E = "wamp.error.not_authorized"
-    popts = {"acknowledge": True, "exclude_me": None, "exclude": None, "eligible_authid": None, "exclude_authrole": None, "retain": None}
+    popts = {"acknowledge": True, "exclude_me": None, "exclude": None, "eligible": None, "exclude_authid": None, "eligible_authid": None, "exclude_authrole": None,
+             "eligible_authrole": None, "retain": None}
     ok = ("reply", 0, "success", [], {}, E)
     setup = {
         "call": [("call", U, [1], {}, {"on_progress": False, "details": False, "timeout": None})],
